@@ -480,6 +480,59 @@ def multidoc_stylesheet(rng):
     return {"templates": templates, "gvars": [], "keys": keys, "strip": strip, "ndocs": 2}
 
 
+def attrsets_stylesheet(rng):
+    """The attribute-set family (7.1.4, 7.5): sets s0..s2 defined in the principal module and in an imported one (merged by import
+    precedence), sets using sets, use-attribute-sets on literal result elements, xsl:element and xsl:copy - also when the node copied is
+    the root, a text node or an attribute (the sets are then NOT used) - overridden by literal attributes and xsl:attribute children;
+    the attribute templates read the current node and a top-level variable."""
+    P_ = lambda *steps, **kw: path(list(steps), **kw)
+    z = {"k": "fin", "neg": False, "m": 0}
+    tag = lambda t: {"i": "text", "v": cps(t)}
+    vo = lambda e: {"i": "value-of", "sel": e}
+    nm = lambda t: [{"lit": True, "s": cps(t)}]
+    def attr(name, body):
+        return {"name": nm(name), "body": body}
+    vals = [lambda: [tag(rng.choice(["low", "v", ""]))], lambda: [vo(fn("name"))], lambda: [vo(fn("position"))], lambda: [vo(var("gs"))],
+            lambda: [vo(fn("count", P_(ch(T_NODE))))], lambda: [tag("n"), vo(P_(at(t_name("x"))))]]
+    attrsets = []
+    for sname, mods_ in (("s0", [2, 1]), ("s1", [2]), ("s2", [1])):
+        for mid in mods_:
+            if len(mods_) > 1 and mid == 1 and rng.random() < 0.3:
+                continue
+            names = rng.sample(["p", "q", "x"], rng.choice([1, 2]))
+            uses = []
+            if sname == "s1" and rng.random() < 0.7: uses = ["s0"]
+            if sname == "s2" and rng.random() < 0.6: uses = rng.sample(["s0", "s1"], rng.choice([1, 2]))
+            attrsets.append({"name": sname, "uses": uses, "attrs": [attr(n_, rng.choice(vals)()) for n_ in names], "mod": mid})
+    def uses():
+        return rng.sample(["s0", "s1", "s2"], rng.choice([1, 1, 2]))
+    def own_attrs():
+        return [{"i": "attribute", "name": nm(rng.choice(["p", "q", "y"])), "body": [tag("own")]}] if rng.random() < 0.5 else []
+    def user(d):
+        r = rng.random()
+        inner = [user(d - 1)] if d > 0 and rng.random() < 0.4 else [tag("t")]
+        if r < 0.35:
+            lits = [{"name": cps(n_), "avt": nm("lit")} for n_ in rng.sample(["p", "q", "x"], rng.choice([0, 1]))]
+            return {"i": "lre", "name": cps(rng.choice(["e", "f"])), "attrs": lits, "uses": uses(), "body": own_attrs() + inner}
+        if r < 0.6:
+            return {"i": "element", "name": nm(rng.choice(["g", "h"])), "uses": uses(), "body": own_attrs() + inner}
+        return {"i": "copy", "uses": uses(), "body": own_attrs() + inner}
+    copy_any = {"i": "for-each", "sel": rng.choice([bin_("|", P_(abs_=True), P_(ch(T_ANY))), bin_("|", P_(ch(T_NODE)), P_(at(T_ANY))), P_(step("self", T_NODE)),
+                                                    bin_("|", P_(abs_=True), P_(DOS, ch(T_TEXT), abs_=True))]),
+                "sorts": [], "body": [{"i": "copy", "uses": uses(), "body": [tag("c")] if rng.random() < 0.5 else []}]}
+    templates = [
+        {"rid": 1, "hasMatch": True, "match": P_(ch(T_ANY)), "name": "", "mode": "", "hasPrio": False, "prio": z, "params": [],
+         "body": [user(1)] + ([{"i": "apply-templates", "hasSel": False, "sel": NONE, "mode": "", "sorts": [], "params": []}] if rng.random() < 0.7 else []), "mod": 1},
+        {"rid": 2, "hasMatch": True, "match": P_(ch(T_TEXT)), "name": "", "mode": "", "hasPrio": False, "prio": z, "params": [], "body": [{"i": "copy", "uses": uses(), "body": []}], "mod": 1},
+        {"rid": 3, "hasMatch": True, "match": P_(abs_=True), "name": "", "mode": "", "hasPrio": False, "prio": z, "params": [],
+         "body": [{"i": "lre", "name": cps("out"), "attrs": [], "uses": uses() if rng.random() < 0.5 else [], "body": [
+                      {"i": "lre", "name": cps("w"), "attrs": [], "body": [copy_any]},
+                      {"i": "apply-templates", "hasSel": False, "sel": NONE, "mode": "", "sorts": [], "params": []}]}], "mod": 1},
+    ]
+    gvars = [{"name": "gs", "hasSel": True, "sel": lit("G"), "body": [], "mod": 1}]
+    return {"templates": templates, "gvars": gvars, "keys": [], "strip": [], "mods": [{"id": 1, "imports": [2]}, {"id": 2, "imports": []}], "attrsets": attrsets}
+
+
 # ------------------------------------------------------------------------------------------ rendering
 def s(cp):
     return "".join(chr(c) for c in cp)
@@ -518,10 +571,10 @@ def r_instr(x):
     if i == "value-of":
         return "<xsl:value-of select=%s/>" % quoteattr(xpgen.render(x["sel"]))
     if i == "lre":
-        a = "".join(" %s=%s" % (s(at_["name"]), r_avt(at_["avt"])) for at_ in x["attrs"])
+        a = (' xsl:use-attribute-sets="%s"' % " ".join(x["uses"]) if x.get("uses") else "") + "".join(" %s=%s" % (s(at_["name"]), r_avt(at_["avt"])) for at_ in x["attrs"])
         return "<%s%s>%s</%s>" % (s(x["name"]), a, r_body(x["body"]), s(x["name"]))
     if i == "element":
-        return "<xsl:element name=%s>%s</xsl:element>" % (r_avt(x["name"]), r_body(x["body"]))
+        return "<xsl:element name=%s%s>%s</xsl:element>" % (r_avt(x["name"]), ' use-attribute-sets="%s"' % " ".join(x["uses"]) if x.get("uses") else "", r_body(x["body"]))
     if i == "attribute":
         return "<xsl:attribute name=%s>%s</xsl:attribute>" % (r_avt(x["name"]), r_body(x["body"]))
     if i == "comment":
@@ -545,7 +598,7 @@ def r_instr(x):
     if i == "apply-imports":
         return "<xsl:apply-imports/>"
     if i == "copy":
-        return "<xsl:copy>%s</xsl:copy>" % r_body(x["body"])
+        return "<xsl:copy%s>%s</xsl:copy>" % (' use-attribute-sets="%s"' % " ".join(x["uses"]) if x.get("uses") else "", r_body(x["body"]))
     if i == "copy-of":
         return "<xsl:copy-of select=%s/>" % quoteattr(xpgen.render(x["sel"]))
     if i == "variable":
@@ -596,6 +649,11 @@ def render_modules(ss):
                 lines.append('<xsl:key name="%s" match=%s use=%s/>' % (k["name"], quoteattr(xpgen.render(k["match"])), quoteattr(xpgen.render(k["use"]))))
             for d in ss.get("strip", []):
                 lines.append('<xsl:%s-space elements="%s"/>' % ("strip" if d["strip"] else "preserve", d["name"]))
+        for a_ in ss.get("attrsets", []):
+            if a_.get("mod", 1) == m["id"]:
+                lines.append('<xsl:attribute-set name="%s"%s>%s</xsl:attribute-set>' % (
+                    a_["name"], ' use-attribute-sets="%s"' % " ".join(a_["uses"]) if a_["uses"] else "",
+                    "".join("<xsl:attribute name=%s>%s</xsl:attribute>" % (r_avt(t["name"]), r_body(t["body"])) for t in a_["attrs"])))
         for g in ss["gvars"]:
             if g.get("mod", 1) == m["id"]:
                 lines.append(r_binding("variable", {k: v for k, v in g.items() if k != "mod"}))
@@ -632,6 +690,7 @@ def spec_stylesheet(ss):
     """the stylesheet as XSLTSem.tla sees it"""
     out = spec_form({"templates": [dict(t, mod=t.get("mod", 1)) for t in ss["templates"]], "gvars": [dict(g, mod=g.get("mod", 1)) for g in ss["gvars"]]})
     out["mods"] = ss.get("mods") or [{"id": 1, "imports": []}]
+    out["attrsets"] = spec_form([dict(a_, mod=a_.get("mod", 1)) for a_ in ss.get("attrsets", [])])
     # document() documents: d2.xml, d3.xml, ... are documents 2, 3, ... of the forest the spec is given
     out["docs"] = [{"uri": cps("d%d.xml" % (j + 2)), "idx": j + 2} for j in range(ss.get("ndocs", 0))]
     out["keys"] = [{"name": cps(k["name"]), "match": spec_form(k["match"]), "use": spec_form(k["use"])} for k in ss.get("keys", [])]
